@@ -218,6 +218,7 @@ func (s *stream) write(p []byte) (int, error) {
 			rt.Tracef("write %s %d bytes (off %d)", s.name, len(chunk), s.written-uint64(len(chunk)))
 		}
 		off += space
+		rt.Progress()
 		wake(&s.rwait)
 	}
 	if cut >= 0 {
@@ -318,6 +319,7 @@ func (s *stream) read(p []byte) (int, error) {
 			s.delivered += uint64(n)
 			s.stats.Reads++
 			s.stats.Bytes += uint64(n)
+			rt.Progress()
 			rt.LogEvent('r', uint64(n), s.delivered)
 			if rt.Tracing() {
 				rt.Tracef("read %s %d of %d available", s.name, n, av)
@@ -409,6 +411,7 @@ func (e *Endpoint) Abort() {
 		return
 	}
 	e.closed = true
+	rt.Progress()
 	e.out.closedW = true
 	e.in.closedR = true
 	wake(&e.out.rwait)
